@@ -125,24 +125,38 @@ MkRoute(n, b, ap, cp, v, metaLen, fillCustomLen) ==
                                !.meta_len = metaLen, !.meta_fp = IF metaLen >= 0 THEN "m" ELSE "",
                                !.customs = customs, !.keysend = IF v.ks THEN "k" ELSE ""]]
 
-(* largest length of the filler field (metadata or a custom TLV) with which the route
-   still fits; -1 if not even an empty one fits.  `mk(len)` builds the route.           *)
-FillLen(mk(_)) ==
-  LET spare == HopDataLen - SumLens(mk(0))     \* room left with an empty filler
-      cands == {m \in (spare - 6)..spare : m >= 0 /\ Fits(mk(m))}
+(* largest length of the filler field (metadata or a custom TLV) of the final hop with which
+   route r0 (built with an empty filler) still fits; -1 if not even the empty one fits.
+   `setLen(h, len)` is the final hop descriptor with a filler of length len.              *)
+FillLen(r0, setLen(_, _)) ==
+  LET n == Len(r0)
+      others == SumLens(r0) - HopLen(r0[n])
+      spare == HopDataLen - SumLens(r0)          \* room left with an empty filler
+      fits(m) == others + HopLen(setLen(r0[n], m)) <= HopDataLen
+      cands == {m \in (spare - 6)..spare : m >= 0 /\ fits(m)}
   IN IF spare < 0 THEN -1
      ELSE IF cands = {} THEN 0 ELSE CHOOSE m \in cands : \A m2 \in cands : m2 <= m
+
+SetMeta(h, len) == [h EXCEPT !.meta_len = len, !.meta_fp = "m"]
+SetFillCustom(h, len) ==
+  [h EXCEPT !.customs = SubSeq(@, 1, Len(@) - 1) \o <<FillCustom(len)>>]
 
 RouteFor(n, b, ap, cp, v) ==
   LET metaFill == v.meta \in {"fillm", "fill", "fillp"}
       custFill == v.cust \in {"fill", "fillp"}
-      mkM(len) == MkRoute(n, b, ap, cp, v, len, -1)
-      mkC(len) == MkRoute(n, b, ap, cp, v, BaseMeta(v), len)
       adj(kind, len) == IF len < 0 THEN -1
                         ELSE IF kind \in {"fillm"} THEN Max(len - 1, 0)
                         ELSE IF kind \in {"fillp"} THEN len + 1 ELSE len
-  IN IF metaFill THEN mkM(adj(v.meta, FillLen(mkM)))
-     ELSE IF custFill THEN mkC(adj(v.cust, FillLen(mkC)))
+      rM == MkRoute(n, b, ap, cp, v, 0, -1)
+      rC == MkRoute(n, b, ap, cp, v, BaseMeta(v), 0)
+      lenM == adj(v.meta, FillLen(rM, SetMeta))
+      lenC == adj(v.cust, FillLen(rC, SetFillCustom))
+  IN IF metaFill
+       THEN IF lenM < 0 THEN MkRoute(n, b, ap, cp, v, -1, -1)
+            ELSE [rM EXCEPT ![n] = SetMeta(@, lenM)]
+     ELSE IF custFill
+       THEN IF lenC < 0 THEN MkRoute(n, b, ap, cp, v, BaseMeta(v), -1)
+            ELSE [rC EXCEPT ![n] = SetFillCustom(@, lenC)]
      ELSE MkRoute(n, b, ap, cp, v, BaseMeta(v), -1)
 
 ScriptOf(n, b, ap, cp, v, r) ==
@@ -169,7 +183,10 @@ SegSum(s) == IF s = <<>> THEN 0 ELSE Head(s).len + SegSum(Tail(s))
 
 MCInit ==
   /\ Init
-  /\ pkt = NoPkt /\ fpkt = NoFpkt /\ mode = "none"
+  /\ pkt = NoPkt /\ fpkt = NoFpkt
+  \* one initial state per (mode, length, blinded hops): the route enumeration is spread over workers
+  /\ mode \in {[m |-> "size", n |-> n, b |-> b] : n \in SizeNs, b \in Blindeds}
+            \cup {[m |-> "ops", n |-> n, b |-> 0] : n \in OpsNs}
   /\ hist = [op |-> [kind |-> "none"]]
 
 HoldOf(j) == 100 + 7 * j
@@ -181,7 +198,7 @@ CodeOf(cls) ==
     [] cls = "plain" -> 21
     [] cls = "recipient" -> 16384 + 15
 
-DoBuild(m, n, b, ap, cp, v) ==
+DoBuild(n, b, ap, cp, v) ==
   LET r == RouteFor(n, b, ap, cp, v)
       ok == Fits(r)
       pad == HopDataLen - SumLens(r)
@@ -191,31 +208,39 @@ DoBuild(m, n, b, ap, cp, v) ==
                               \o (IF pad > 0 THEN <<[owner |-> 0, len |-> pad]>> ELSE <<>>),
                      eph |-> 1, intact |-> TRUE]
                ELSE NoPkt
-     /\ mode' = m
      /\ hist' = ScriptOf(n, b, ap, cp, v, r)
-     /\ UNCHANGED fpkt
+     /\ UNCHANGED <<fpkt, mode>>
 
 (* size mode: all class patterns and recipient-field sizes, plain delivery only *)
 MBuildSize ==
-  \E n \in SizeNs, b \in Blindeds :
+  /\ phase = "idle" /\ mode.m = "size"
+  /\ LET n == mode.n  b == mode.b IN
     /\ b <= n /\ n <= MaxN
     /\ \E ap \in Patterns(n, AmtLens, FALSE), cp \in Patterns(n, CltvLens, TRUE), v \in FinalVariants :
          /\ CltvFeasible(n, b, cp)
          /\ b > 0 => (v.meta = "none" /\ v.sec)
-         /\ DoBuild("size", n, b, ap, cp, v)
+         \* relay fees inside a blinded path are 32-bit: no amount class change there
+         /\ b > 0 => ap[1] = ap[2]
+         /\ DoBuild(n, b, ap, cp, v)
+
+SetMin(S) == CHOOSE x \in S : \A y \in S : x <= y
+SetMax(S) == CHOOSE x \in S : \A y \in S : x >= y
+OpsClasses == {<<SetMin(AmtLens), SetMin(CltvLens \ {1})>>, <<SetMax(AmtLens), SetMax(CltvLens)>>}
 
 (* ops mode: uniform classes, plain recipient fields, every corruption / failure / fulfil *)
 MBuildOps ==
-  \E n \in OpsNs, a \in AmtLens, c \in CltvLens \ {1} :
-    /\ n <= MaxN
-    /\ DoBuild("ops", n, 0, <<a, a, 1>>, <<c, c, 1>>,
+  /\ phase = "idle" /\ mode.m = "ops"
+  /\ \E ac \in OpsClasses :
+    /\ mode.n <= MaxN
+    /\ DoBuild(mode.n, 0, <<ac[1], ac[1], 1>>, <<ac[2], ac[2], 1>>,
                [sec |-> TRUE, ks |-> FALSE, t8 |-> FALSE, meta |-> "none", cust |-> "none"])
 
 NoOpYet == hist.op.kind = "deliver"
 
 MCorrupt ==
-  \E f \in Fields :
-    /\ mode = "ops" /\ NoOpYet
+  /\ phase = "fwd" /\ mode.m = "ops"
+  /\ \E f \in Fields :
+    /\ NoOpYet
     /\ Corrupt(pos + 1, f)
     /\ pkt' = [pkt EXCEPT !.intact = FALSE]
     /\ hist' = [hist EXCEPT !.op = [kind |-> "corrupt", at |-> pos + 1, field |-> f,
@@ -252,9 +277,10 @@ MPeel ==
 FailLen(d) == IF 2 + d <= 256 THEN 32 + 2 + 256 + 2 ELSE 32 + 2 + 2 + d + 2
 
 MFailAt ==
-  \E cls \in CodeClasses, d \in DLens :
+  /\ phase \in {"fwd", "received"} /\ mode.m = "ops"
+  /\ \E cls \in CodeClasses, d \in DLens :
     LET k == pos IN
-    /\ mode = "ops" /\ NoOpYet
+    /\ NoOpYet
     /\ cls = "recipient" => k = N
     /\ FailAt(k, CodeOf(cls), HoldOf(k))
     /\ fpkt' = [origin |-> k, code |-> CodeOf(cls), len |-> FailLen(d), layers |-> <<k>>,
@@ -295,7 +321,7 @@ MAttribute ==
   /\ UNCHANGED <<pkt, fpkt, mode, hist>>
 
 MFulfill ==
-  /\ mode = "ops" /\ NoOpYet
+  /\ phase = "received" /\ mode.m = "ops" /\ NoOpYet
   /\ FulfillAt(N, HoldOf(N))
   /\ fpkt' = [origin |-> N, code |-> 0, len |-> 0, layers |-> <<N>>,
               attr |-> <<[hop |-> N, hold |-> HoldOf(N)]>>]
@@ -319,6 +345,7 @@ MFulfillAttribute ==
 Terminal ==
   \/ phase \in {"nobuild", "rejected", "attributed", "fattributed"}
   \/ phase = "received"
+  \/ phase = "idle" /\ (mode.b > mode.n \/ mode.n > MaxN)
 MDone == Terminal /\ UNCHANGED mvars
 
 MCNext == MBuildSize \/ MBuildOps \/ MCorrupt \/ MPeel \/ MFailAt \/ MWrap \/ MAttribute
